@@ -17,6 +17,7 @@ package server
 // model only enumerates and deduplicates histories.
 
 import (
+	"os"
 	"fmt"
 	"path/filepath"
 	"strconv"
@@ -135,7 +136,7 @@ func fullDump(c *Cli) string {
 }
 
 func checkC03(job *Job, res *Result) {
-	res.Rule = "SEQ+FAULT: BFS over histories of data-modifying commands (keyspace, hooks/channels, scripts, expiry by virtual-time advance) deduplicated on the reference model; per edge: logged-iff-changed, clean restart equivalence, and recovery from the directory as of EVERY file-operation boundary of the last command and of the shutdown; distinct = distinct (state after, crash index class) observations"
+	res.Rule = "SEQ+FAULT: BFS over histories of data-modifying commands (keyspace, hooks/channels, scripts, expiry by virtual-time advance) deduplicated on the reference model; per edge: logged-iff-changed, clean restart equivalence, and recovery from the directory as of EVERY file-operation boundary of the last command and of the shutdown, plus a crash inside the append of the last command (all but its last byte written) followed by a restart, one short write and another restart; distinct = distinct (state after, crash index class) observations"
 	res.Assumptions = append(res.Assumptions,
 		"a process kill leaves exactly the completed file operations; torn writes are C04, power loss is outside the property",
 		"backgroundExpiring and backgroundSyncAOF run (virtual time); other polling loops frozen: they do not touch the dataset or the log",
@@ -247,6 +248,54 @@ func checkC03(job *Job, res *Result) {
 					viol("partial-after-crash:"+cmdName, fmt.Sprintf("crash after file operation %d (%s): recovered %q which is neither the state before (%q) nor after (%q)", k, opDesc(k), d3, d0, d1))
 				}
 				res.Distinct(fnv(fmt.Sprintf("%s|%v", d3, k < kAck)))
+			}
+			// (d) the process dies INSIDE the append of this command (all but its last
+			// byte reached the file), restarts, acknowledges one short write and is
+			// restarted again: it must come up, with the state it served
+			if strings.HasPrefix(a1, a0) && len(a1)-len(a0) > 60 && sym.Args[0] != "@FILL" {
+				cd := fmt.Sprintf("%s/torn", x.dir)
+				if err := vos.Materialise(k0, dir, cd); err != nil {
+					panic(err)
+				}
+				if err := os.WriteFile(filepath.Join(cd, "appendonly.aof"), []byte(a1[:len(a1)-1]), 0600); err != nil {
+					panic(err)
+				}
+				nCrash++
+				in4, err := x.TryStart("T1", cd, 9300, nil)
+				if err != nil {
+					viol("crash-recovery-fails:torn-append:"+cmdName, fmt.Sprintf("server does not start on a log whose last command lacks its final byte: %v", err))
+					return
+				}
+				c4 := x.Dial(in4.Addr)
+				// (a script or a TIMEOUT-wrapped script appends one record per inner
+				// command: a tear in the last one legitimately leaves the earlier ones)
+				nrec := 0
+				for rest := []byte(a1[len(a0):]); len(rest) > 0; nrec++ {
+					_, r2, full, err := parseRESP(rest)
+					if err != nil || !full {
+						break
+					}
+					rest = r2
+				}
+				if d4 := fullDump(c4); d4 != d0 && nrec == 1 {
+					viol("partial-after-crash:torn-append:"+cmdName, fmt.Sprintf("a command torn inside its append was applied: recovered %q, state before the command %q", d4, d0))
+				}
+				r := c4.Do("SET", "tt", "t", "STRING", "x")
+				dA := fullDump(c4)
+				c4.Close()
+				in4.Stop()
+				in5, err := x.TryStart("T2", cd, 9301, nil)
+				if err != nil {
+					viol("second-restart-fails:torn-append:"+cmdName, fmt.Sprintf("after a torn append, a restart, SET tt t STRING x (%s) and a clean stop the server does not start: %v", r, err))
+					return
+				}
+				c5 := x.Dial(in5.Addr)
+				dB := fullDump(c5)
+				c5.Close()
+				in5.Stop()
+				if dB != dA {
+					viol("restart:torn-append:"+cmdName, fmt.Sprintf("after a torn append, a restart and one acknowledged write: served %q, after the next restart %q", dA, dB))
+				}
 			}
 		})
 		if len(x.Crashes) > 0 {
